@@ -956,6 +956,57 @@ func c11kind(f *xl.File, cell string) string {
 	return fmt.Sprintf("type%d", t)
 }
 
+// c11cachedLiteral: what GetCellValue must return for the cached value of a formula cell written as
+// Cell{Formula, Value}; raw says whether the raw or the formatted getter is meant. ok=false: not judged.
+func c11cachedLiteral(v interface{}) (want string, raw bool, ok bool) {
+	cut := func(s string) (string, bool) {
+		if !utf8.ValidString(s) {
+			return "", false
+		}
+		if utf8.RuneCountInString(s) > xl.TotalCellChars {
+			s = string([]rune(s)[:xl.TotalCellChars])
+		}
+		return s, true
+	}
+	switch x := v.(type) {
+	case nil:
+		return "", true, true
+	case string:
+		s, ok := cut(x)
+		return s, false, ok
+	case []byte:
+		s, ok := cut(string(x))
+		return s, false, ok
+	case bool:
+		if x {
+			return "TRUE", false, true
+		}
+		return "FALSE", false, true
+	case int:
+		return strconv.Itoa(x), true, true
+	case int16:
+		return strconv.Itoa(int(x)), true, true
+	case uint32:
+		return strconv.FormatUint(uint64(x), 10), true, true
+	case uint64:
+		return strconv.FormatUint(x, 10), true, true
+	}
+	return "", false, false
+}
+
+// c11bstrAffected: does bstrMarshal store this text differently (escape look-alikes, characters outside XML 1.0)?
+func c11bstrAffected(s string) bool {
+	if strings.Contains(s, "_x") {
+		return true
+	}
+	for _, r := range s {
+		if (r < 0x20 && r != 9 && r != 10 && r != 13) || r == 0xFFFE || r == 0xFFFF {
+			return true
+		}
+	}
+	return false
+}
+
 func c11reopen(f *xl.File) (*xl.File, error) {
 	var b bytes.Buffer
 	if err := f.Write(&b); err != nil {
@@ -1094,6 +1145,25 @@ func (c *c11Case) compare() {
 		}
 		if sk != mk {
 			c.fail("cell:kind", fmt.Sprintf("%s: kind stream %s, in-memory %s", name, sk, mk), 0)
+		}
+		// a Cell carrying a formula AND a value: the value is the formula's cached result. The in-memory API has no
+		// call for that, so the stream's read-back is compared with the literal the harness expects, not with the twin.
+		if cc != nil && cc.it.wrapped && cc.it.formula != "" {
+			if want, raw, ok := c11cachedLiteral(cc.it.inner); ok {
+				got, gotM := sv, mv
+				if !raw {
+					got, _ = sg.GetCellValue(c11Sheet, name)
+					gotM, _ = mg.GetCellValue(c11Sheet, name)
+				}
+				if got != want && c11bstrAffected(want) {
+					// the cached text of a t="str" cell is stored bstr-marshalled (<v> is an ST_Xstring) but read back undecoded
+					c.fail("cell:formula-cached:bstr-not-decoded", fmt.Sprintf("%s: Cell{Formula: %s, Value: %T} reads back %s from the stream-built workbook, expected %s", name, c11short(cc.it.formula), cc.it.inner, c11short(got), c11short(want)), 0)
+				} else if got != want {
+					c.fail("cell:formula-cached", fmt.Sprintf("%s: Cell{Formula: %s, Value: %T} reads back %s from the stream-built workbook, expected %s", name, c11short(cc.it.formula), cc.it.inner, c11short(got), c11short(want)), 0)
+				} else if gotM != want {
+					c.fail("cell:formula-cached:in-memory", fmt.Sprintf("%s: SetCellValue(%T) + SetCellFormula(%s) reads back %s from the in-memory workbook, the stream-built one reads back %s", name, cc.it.inner, c11short(cc.it.formula), c11short(gotM), c11short(want)), 0)
+				}
+			}
 		}
 		// time / duration values get a default number format chosen by each API's own rule
 		// (stream: 22 or none; in-memory: 14/17/20/21/22/46) unless the cell style is explicit
@@ -1722,6 +1792,9 @@ func c11witnesses() [][]string {
 		{"case model 3", "colstyle 2 4 1", "setrow " + hx("A1") + " 2,0,0,0 i1 i2 C3,-,i3 C0,-,i4 n i6", "setrow " + hx("B2") + " - i1 C3,-,i2 C0,-,i3 i4", "flush"},
 		// a rejected FIRST row after column widths and panes, then accepted rows
 		{"case model 0", "colwidth 1 2 80", "panes 1,0,1", "setrow " + hx("XFD1") + " - i1 i2", "setrow " + hx("A1") + " 0,2000,0,0 i1", "setrow " + hx("A1") + " - i1 i2", "setrow " + hx("A2") + " - i3", "flush"},
+		// Cell / *Cell carrying a formula AND a cached value of every kind (string, []byte, bool, numbers, nil)
+		{"case model 1", "setrow 4131 - C0,413226227922,s7879 P0,555050455228222078202229,y205820 C0,313e32,b0 P1,323e31,b1 C0,322b33,i5 P0,322b33,u5 C1,312f34,F3fd0000000000000 C0,4e4f572829,n P0,4131,s- C0,4231,s3c6126623e0d0a", "flush"},
+		{"case model 0", "setrow 4131 - C0,4132,s615f78303030445f62 C0,4132,y780779", "flush"},
 		{"case model 0", "flush"},
 		{"case model 0", "merge " + hx("A1") + " " + hx("B2"), "flush"},
 	}
